@@ -141,11 +141,11 @@ func genTxConc(g *gen, n int, tier string, w *bufio.Writer) {
 // ---------- executor ----------
 
 type txcOp struct {
-	Op  string `json:"op"`            // g s p d C R
-	K   string `json:"k,omitempty"`   // key / lo
-	K2  string `json:"k2,omitempty"`  // hi
-	V   string `json:"v,omitempty"`   // value written
-	Res string `json:"res"`           // found:<v> | nf | ok | closed | readonly | err:<..> | scan:<k>=<v>,...
+	Op  string `json:"op"`           // g s p d C R
+	K   string `json:"k,omitempty"`  // key / lo
+	K2  string `json:"k2,omitempty"` // hi
+	V   string `json:"v,omitempty"`  // value written
+	Res string `json:"res"`          // found:<v> | nf | ok | closed | readonly | err:<..> | scan:<k>=<v>,...
 }
 
 type txcTx struct {
